@@ -323,6 +323,9 @@ pub struct Sim {
     /// quiesce() returns early once this says so (a simulated crash: a dead
     /// process runs no further tasks)
     pub abort_check: Option<fn() -> bool>,
+    /// files below this URI belong to a publisher of the harness, not to a CA:
+    /// the relying-party walk does not expect them on a manifest
+    pub foreign_publisher_base: Option<String>,
 }
 
 #[derive(Debug)]
@@ -372,6 +375,7 @@ impl Sim {
             advance_budget: budget,
             held_advance: 0,
             abort_check: None,
+            foreign_publisher_base: None,
         })
     }
 
